@@ -88,7 +88,7 @@ func (x *world) write(sameSlot bool) {
 	x.lastTS = ts
 	rows, err := vbox.Rows([]vbox.Point{{Metric: metric, Tags: map[string]string{"host": "a"}, Field: "f", Type: "sum", Value: math.Pow(3, float64(k)), Timestamp: ts}})
 	if err != nil {
-		vevid.Fatal("rows: %v", err)
+		vevid.OpFailed("rows: %v", err)
 	}
 	// what the local replicator does (the only caller of WriteRows): the rows of a sequence are written between
 	// ValidateSequence and CommitSequence, which serialises them with the flush's switch of the memory database
@@ -209,7 +209,7 @@ func body(sc scenario) func() {
 		shard, _ := box.DB.GetShard(shardID)
 		f, err := shard.GetOrCrateDataFamily(ft)
 		if err != nil {
-			vevid.Fatal("family: %v", err)
+			vevid.OpFailed("family: %v", err)
 		}
 		w = &world{family: f, ft: ft}
 		for _, op := range sc.Pre {
@@ -236,19 +236,19 @@ func openWorld() {
 	_ = os.RemoveAll(engDir)
 	b, err := vbox.Open(engDir, "db", opt, []models.ShardID{shardID})
 	if err != nil {
-		vevid.Fatal("open: %v", err)
+		vevid.OpFailed("open: %v", err)
 	}
 	box = b
 	execNo = 0
 	shard, _ := box.DB.GetShard(shardID)
 	fam, err := shard.GetOrCrateDataFamily(base)
 	if err != nil {
-		vevid.Fatal("family: %v", err)
+		vevid.OpFailed("family: %v", err)
 	}
 	w = &world{family: fam, ft: base}
 	w.write(false)
 	if err := box.FlushFamily(shardID, base); err != nil {
-		vevid.Fatal("flush: %v", err)
+		vevid.OpFailed("flush: %v", err)
 	}
 }
 
